@@ -40,8 +40,19 @@ impl Manager {
         EcallTerminationPass::run(&mut cfg)?;
         FunctionMarkupPass::run(&mut cfg)?;
 
-        AvailableValuePass::run(&mut cfg)?;
-        EcallTerminationPass::run(&mut cfg)?;
+        // Cutting the edges behind an exit ecall can make further values known
+        // (a join loses a predecessor), which can reveal further exit ecalls:
+        // alternate the two passes until no more edges are cut, so that the
+        // values describe the final graph.
+        loop {
+            AvailableValuePass::run(&mut cfg)?;
+            let edges_before: usize = cfg.iter().map(|node| node.nexts().len()).sum();
+            EcallTerminationPass::run(&mut cfg)?;
+            let edges_after: usize = cfg.iter().map(|node| node.nexts().len()).sum();
+            if edges_after == edges_before {
+                break;
+            }
+        }
         // EliminateDeadCodeDirectionsPass::run(&mut cfg)?; // to eliminate ecall terminated code
         LivenessPass::run(&mut cfg)?;
         Ok(cfg)
